@@ -134,7 +134,8 @@ StackSerialization ==
     /\ pc = "ser" /\ idx <= Len(sorted)
     /\ LET c == sorted[idx]
            fromBases == SelectSeq([k \in DOMAIN Bases(c) |-> wmtR[Bases(c)[k]]], LAMBDA v : v # "none")
-           settings == IF h.wmt[c] # "none" THEN Append(fromBases, h.wmt[c]) ELSE fromBases
+           \* a bare @serialization() gives the class a settings object without a model-type setting
+           settings == IF h.wmt[c] \in {"true", "false"} THEN Append(fromBases, h.wmt[c]) ELSE fromBases
        IN  IF ~IsClass(h, c) \/ settings = <<>> THEN UNCHANGED <<wmtR, pc>> /\ idx' = idx + 1
            ELSE IF \E k \in DOMAIN settings : settings[k] # settings[1]
                 THEN pc' = "rejected" /\ UNCHANGED <<wmtR, idx>>
